@@ -57,6 +57,16 @@ func Run(id string, p *load.Program, tier string) *report.Result {
 	if f == nil {
 		return nil
 	}
+	computeAliases(p)
+	fieldCanon = p.FieldName
+	usesLookup = func(id *ast.Ident) types.Object {
+		for _, pkg := range p.Pkgs {
+			if o := pkg.TypesInfo.Uses[id]; o != nil {
+				return o
+			}
+		}
+		return nil
+	}
 	c := &Ctx{P: p, Tier: tier, R: report.NewResult(id), graphs: map[ast.Node]*cfgx.Graph{}}
 	f(c)
 	// rule sets of other properties that state necessary conditions of this one (obligations appear as <id>/<rule>)
